@@ -391,4 +391,3 @@ pub fn selftest() -> std::result::Result<(), String> {
     Ok(())
 }
 
-pub fn c32_settlement(_rep: &mut mc_core::Report, _cli: &mc_core::Cli) {}
